@@ -70,6 +70,13 @@ def sweep(rec, ctx, rng, exhaustive):
             for _ in range(100):
                 str(Rational(rng.randint(-10 ** 30, 10 ** 30), rng.randint(1, 10 ** rng.randint(0, 30))))
                 n += 1
+            # values a hair beside a rounding boundary, with very long denominators (as Meek fractions have)
+            for k in range(-12, 13):
+                tie = Fraction(2 * k + 1, 2 * 10 ** d)
+                for eps in (Fraction(1, 10 ** 20), Fraction(1, 10 ** 40), Fraction(1, 3 * 10 ** 60), Fraction(1, 7 ** 90), Fraction(1, 10 ** 120 + 7)):
+                    for v in (tie - eps, tie + eps, -tie - eps, -tie + eps):
+                        str(Rational(v))
+                        n += 1
     return n
 
 
@@ -114,6 +121,13 @@ def shard(ctx):
                 ctx.count('count_raised:' + type(run.error).__name__)
             elif not run.timed_out:
                 ctx.count('rendered_counts')
+                # "reports, dumps and JSON all use this printed form": every rendered figure must be str() of the recorded value
+                from . import c18
+                vs18, st18 = c18.check(run)
+                ctx.count('rendered_fields_compared', st18['dump_rows'] + st18['blocks'])
+                for key, msg, wit in vs18:
+                    if key.startswith(('report-', 'dump-', 'json-')):
+                        ctx.violation('rendering-not-the-printed-form:' + key, msg, dict(kind='rendered-count', blt=gen.render(s), options=opts))
                 ctx.sample(dict(options=opts, report_excerpt=(run.report or '')[:400]), keep=1)
         ctx.count('str_inside_renderings', rec.total() - before)
     finally:
